@@ -2,6 +2,7 @@ import GoaktVerif.Driver.Util
 import GoaktVerif.Model.C09
 import GoaktVerif.Model.C09.Dump
 import GoaktVerif.Model.C09.Stop
+import GoaktVerif.Model.C09.Scenario
 import GoaktVerif.Spec.C09
 
 /-
@@ -22,7 +23,7 @@ Line protocol of C09.
       `end:term=<w>><a>=<n>,…;tree=<registered scenario actors>`
 -/
 namespace GoaktVerif.Driver.C09
-open GoaktVerif.Driver GoaktVerif.Model.C09 GoaktVerif.Spec.C09
+open GoaktVerif.Driver GoaktVerif.Model.C09 GoaktVerif.Spec.C09 GoaktVerif.Model.C09.Scenario
 
 def sortNats (l : List Nat) : List Nat := l.mergeSort (fun a b => a ≤ b)
 def sortBy1 {α : Type} (l : List (Nat × α)) : List (Nat × α) := l.mergeSort (fun a b => a.1 ≤ b.1)
@@ -80,82 +81,6 @@ def runTree (t : Tree) : List Op → List String → List String
   | o :: os, acc =>
     let (t', r) := t.step o
     runTree t' os (render t' r :: acc)
-
-/-! ### scenarios on a started system -/
-
-def ROOT : Nat := 1
-def SYSG : Nat := 2
-def USERG : Nat := 3
-def DW : Nat := 4
-
-def actorId? (s : String) : Option Nat :=
-  if s.startsWith "a" then (s.drop 1).toString.toNat?.map (· + 10) else none
-
-def actorName (id : Nat) : String := "a" ++ toString (id - 10)
-
-def sysPid (id : Nat) : Pid := ⟨id, id, 0⟩
-
-/-- the tree of a freshly started system (the guardians and the death watch) -/
-def sys0 : Sys :=
-  let t := (Tree.empty.addRoot (sysPid ROOT)).1
-  let t := (t.addNode (sysPid ROOT) (sysPid SYSG)).1
-  let t := (t.addNode (sysPid ROOT) (sysPid USERG)).1
-  let t := (t.addNode (sysPid SYSG) (sysPid DW)).1
-  { tree := t, running := [ROOT, SYSG, USERG, DW], suspended := [], stopping := [], log := [] }
-
-def sysFuel (s : Sys) : Nat := s.tree.pids.length + 2
-
-def showNames (ids : List Nat) : String := ",".intercalate ((sortNats ids).map actorName)
-
-/-- a stop-like op on actor `x`: `Shutdown`, then death watch handles what it was sent -/
-def sysStop (s : Sys) (tag : String) (x : Nat) : Option (Sys × String) :=
-  let since := s.log.length
-  match s.shutdown (sysFuel s) x with
-  | none => none
-  | some s' =>
-    let stopped := (postStops (s'.log.drop since)).filter (· ≥ 10)
-    some (s'.drainDeathWatch DW since, s!"{tag}:stopped={showNames stopped}")
-
-def sysOp (s : Sys) (tok : String) : Option (Sys × String) :=
-  match tok.splitOn ":" with
-  | ["S", x] => do
-    let x ← actorId? x
-    some (s.spawn DW (sysPid USERG) (sysPid x), "S:ok")
-  | ["C", p, x] => do
-    let p ← actorId? p
-    let x ← actorId? x
-    if s.isRunning p then some (s.spawn DW (sysPid p) (sysPid x), "C:ok") else some (s, "C:err")
-  | ["W", a, b] => do
-    some (s.watch (sysPid (← actorId? a)) (sysPid (← actorId? b)), "W:ok")
-  | ["U", a, b] => do
-    some (s.unwatch (← actorId? a) (← actorId? b), "U:ok")
-  | ["K", x] => do sysStop s "K" (← actorId? x)
-  | ["P", x] => do sysStop s "P" (← actorId? x)
-  | ["Q", x] => do sysStop s "Q" (← actorId? x)
-  | ["T", _, x] => do sysStop s "T" (← actorId? x)
-  | ["Z"] => sysStop s "Z" USERG
-  | ["R", x] => do
-    let x ← actorId? x
-    let since := s.log.length
-    let s' ← s.restart (sysFuel s) DW x
-    let stopped := (postStops (s'.log.drop since)).filter (· ≥ 10)
-    some (s', s!"R:stopped={showNames stopped}")
-  | _ => none
-
-def sysRun : Sys → List String → List String → Option (Sys × List String)
-  | s, [], acc => some (s, acc.reverse)
-  | s, tok :: toks, acc =>
-    match sysOp s tok with
-    | none => none
-    | some (s', out) => sysRun s' toks (out :: acc)
-
-def sysEnd (s : Sys) : String :=
-  let pairs := (s.log.filterMap (fun e => match e with
-    | .terminated w about => if w ≥ 10 && about ≥ 10 then some (w, about) else none
-    | _ => none)).eraseDups
-  let terms := pairs.map fun (w, a) => s!"{actorName w}>{actorName a}={terminatedCount s.log w a}"
-  let reg := (akeys s.tree.pids).filter (· ≥ 10)
-  "end:term=" ++ ",".intercalate terms ++ ";tree=" ++ showNames reg
 
 def model (line : String) : String :=
   match words line with
